@@ -157,9 +157,15 @@ func init() {
 		}
 		var cells []*scen.Cell
 		scen.Odometer([]int{2, 2, 2, 2, 2, 2, maxArgs, 2, 2, 2}, func(d []int) {
-			cells = append(cells, c08Cell(append([]int(nil), d...)))
+			c := c08Cell(append([]int(nil), d...))
+			cells = append(cells, c)
+			// the same method reaching the converter interface through an EMBEDDED plain interface of the file
+			src := c.Files["setup.go"]
+			i := strings.Index(src, "type Convergen interface {\n")
+			emb := src[:i] + "type Loaders interface {\n" + src[i+len("type Convergen interface {\n"):] + "\ntype Convergen interface {\n\tLoaders\n}\n"
+			cells = append(cells, &scen.Cell{ID: c.ID + "_emb", Family: c.Family, Files: map[string]string{"setup.go": emb}, Meta: c.Meta})
 		})
-		e.Rep.Rule("complete product style x recv x reverse x src ptr/val x dst ptr/val x error x extra args x named x src local/imported x dst local/imported; " +
+		e.Rep.Rule("complete product style x recv x reverse x src ptr/val x dst ptr/val x error x extra args x named x src local/imported x dst local/imported x method declared {in the converter interface, in a plain interface it embeds}; " +
 			"non-trivial = accepted cell (each is a distinct signature shape) whose generated signature was compared with the reference builder")
 		// receiver of a type that comes from a DOT-imported package: imported all the same, must be rejected
 		for i, v := range []struct {
